@@ -390,4 +390,9 @@ def linalg_fault_cfgs(salt=0, tier="quick", probs=("rosen", "nzr"), maxfun=30, e
             deep = tier == "thorough" and name in ("none", "soft", "hard_new") and prob == "rosen"
             plan = {"depth": 2 if deep else 1, "letters": list(obj_letters) if deep else [], "la_letters": ["singular"]}
             out.append((cfg, plan))
+            # two linear-algebra failures in one execution (a failure, the restart that recovers from it, a failure again),
+            # every ordered pair, on a short budget
+            if name in ("soft", "hard_new", "soft_inc", "npt5_extra_soft") and prob == "rosen":
+                c2 = dict(cfg, maxfun=16 if npt == n + 1 else 20, tag_mode="la2/" + name)
+                out.append((c2, {"depth": 2, "letters": [], "la_letters": ["singular"]}))
     return out
